@@ -219,23 +219,50 @@ def main(tier, seed, replay=None):
         if code != 0:
             run.violation("band radius is not t * sigma_i (many degrees of freedom, p=%r, code %d)" % (pr, code), {"case": c})
     # every successful fit must come with a finite, non-negative confidence sigma per sample (cases with non-finite statistics are
-    # not comparable in exact arithmetic and would otherwise drop out silently)
+    # not comparable in exact arithmetic and would otherwise drop out silently). A computed covariance of a nearly singular normal
+    # matrix need not be positive semi-definite, and sqrt of a slightly negative rounding residue is NaN: entries are judged only
+    # where the quadratic form j_i^T Cov j_i, recomputed here from the reported covariance, is clearly positive.
     for c, r in zip(cases, results):
         if not r.get("steps") or r["head"].get("build") != "ok" or not r["steps"][1]["v"].get("ok"):
             continue
-        st = r["steps"][1]["v"]["stats"]
+        fitv = r["steps"][1]["v"]
+        st = fitv["stats"]
+        tb = r["steps"][3]["v"]
         us = [unhx(h) for h in st["usigma"]]
-        if len(us) != c["meta"]["N"] or any((v != v) or v < 0 or v == float("inf") for v in us):
-            run.violation("confidence sigma sqrt(j_i^T Cov j_i) has a non-finite or negative entry / wrong length (weights: %s)" % c["meta"]["weights"],
-                          {"case": c, "usigma": st["usigma"]})
+        if len(us) != c["meta"]["N"]:
+            run.violation("confidence sigma has the wrong length", {"case": c, "usigma": st["usigma"]})
+            continue
+        if tb["phi"] is None or any(d is None for d in tb["d"]) or fitv["lin_coef"] is None:
+            continue
+        cf = [unhx(h) for h in fitv["lin_coef"]["cols"][0]]
+        phi = [[unhx(h) for h in col] for col in tb["phi"]["cols"]]
+        dcs = []
+        for d in tb["d"]:
+            dm = [[unhx(h) for h in col] for col in d["cols"]]
+            dcs.append([sum(dm[j][i] * cf[j] for j in range(len(cf))) for i in range(c["meta"]["N"])])
+        cov = [[unhx(h) for h in col] for col in st["cov"]["cols"]]
+        q = len(cov)
+        if any(v != v or abs(v) == float("inf") for col in cov for v in col):
+            continue
+        cn = math.sqrt(sum(v * v for col in cov for v in col))
+        clear = []
+        for i in range(c["meta"]["N"]):
+            j = [phi[k][i] for k in range(len(phi))] + [dc[i] for dc in dcs]
+            s2 = sum(j[a] * cov[b][a] * j[b] for a in range(q) for b in range(q))
+            clear.append(s2 > 1e-6 * sum(v * v for v in j) * cn)
+        bad = [i for i in range(c["meta"]["N"]) if clear[i] and ((us[i] != us[i]) or us[i] < 0 or us[i] == float("inf"))]
+        if bad:
+            run.violation("confidence sigma sqrt(j_i^T Cov j_i) is not finite / negative at sample %d although the quadratic form is clearly positive (weights: %s)"
+                          % (bad[0], c["meta"]["weights"]), {"case": c, "usigma": st["usigma"], "samples": bad})
             continue
         for b, hp in zip(st["bands"], c["ops"][1][2]):
             pv = unhx(hp)
             if b.get("panic") or not (0 < pv < 1) or pv == 1 - 2.0 ** -53:
                 continue
             rad = [unhx(h) for h in b["radius"]]
-            if any((v != v) or v < 0 or v == float("inf") for v in rad):
-                run.violation("band radius has a non-finite or negative entry for p = %r (weights: %s)" % (pv, c["meta"]["weights"]),
+            badr = [i for i in range(len(rad)) if clear[i] and ((rad[i] != rad[i]) or rad[i] < 0 or rad[i] == float("inf"))]
+            if badr:
+                run.violation("band radius has a non-finite or negative entry at sample %d for p = %r (weights: %s)" % (badr[0], pv, c["meta"]["weights"]),
                               {"case": c, "p": hp, "band": b})
                 break
     nband = band_argument_correspondence(run, binp, [(c, r) for c, r in zip(cases, results) if r.get("steps") and r["head"].get("build") == "ok"]
